@@ -6,7 +6,10 @@
 #   c16.doc       <hex line>                     (the example lines of docs/manual/annotate.md)
 #   c16.fragment  <hex line>,<hex line>,...
 #   c16.file      <hex line>,<hex line>,...      (embedded as "--<line>" in a Lua file that goes through the real parser)
-#   c16.print     <hex type text>
+#   c16.print     <hex type text>                (parsed, printed by TypeConvertStr, the printed text parsed again: the
+#                                                 re-read type must be the documented type the first tree denotes,
+#                                                 unions inside unions kept nested; demanded for every documented type,
+#                                                 class printer_fun = the open finding)
 #   c16.total     <hex line>,<hex line>,...
 # A comment line is the CommentLine.Str the Lua lexer hands to ParseCommentFragment: the text after the leading
 # "--" (so an annotation line starts with "-@", an alias continuation line with "-|").
@@ -299,7 +302,9 @@ def gen_fragment(rng, tier):
                     c = rng.choice([b"'x'", b"'\"r\"'", b'"w"', b"'a+'", b"''", b"'", b"x", b"", b"| 'q'", b"'\xe4\xb8\xad'"])
                     lines.append(b"-|" + rng.choice([b" ", b"", b"  "]) + c + rng.choice([b"", b" # note", b"#n", b"   #  two  ", b" @x", b" plain"]))
             else:
-                lines.append(b"-|" + rng.choice([b" 'z'", b" 'z' # c", b" zz", b""]))
+                # a continuation line after whatever came before (malformed line, plain comment, other statement,
+                # alias two lines up): it may only reach the alias of the line directly above
+                lines.append(b"-|" + rng.choice([b" 'z'", b" 'z' # c", b" zz", b"", b" '\"q\"' # quoted"]))
         out.append(",".join(hexs(x) for x in lines))
     return out
 
